@@ -322,6 +322,30 @@ func init() {
 		return c12MsgCode(msg), 0
 	}
 
+	// scratch state of a case: directories, .BRD, shared memory reloaded from it
+	prepare := func(args [][]string) (pool [][]byte, brd []byte, ns, nr int, via int64) {
+		ns, nr, via = int(ai(args[0][1])), int(ai(args[0][2])), ai(args[0][3])
+		for i := 0; i+13 <= len(args[1]); i += 13 {
+			pool = append(pool, ab(args[1][i:i+13]))
+		}
+		for _, d := range listDirs() {
+			os.RemoveAll(filepath.Join(boardsDir(), d))
+		}
+		for i := 0; i+13 <= len(args[2]); i += 13 {
+			s := c12Cstr(ab(args[2][i : i+13]))
+			if len(s) > 0 {
+				must(os.MkdirAll(filepath.Join(boardsDir(), s[:1], s), 0o755))
+			}
+		}
+		brd = make([]byte, 0, ns*c12Slot)
+		for i := 0; i < ns; i++ {
+			brd = append(brd, mkSlot(args[4+i])...)
+		}
+		must(os.WriteFile(filepath.Join(env.home, ".BRD"), brd, 0o644))
+		env.reload(true)
+		return pool, brd, ns, nr, via
+	}
+
 	register("C12", &propDriver{
 		setup: func() {
 			env = newBBSEnv("ptt", true)
@@ -358,32 +382,22 @@ func init() {
 				}
 				return out
 			case 1:
-				ns, nr, via := int(ai(args[0][1])), int(ai(args[0][2])), ai(args[0][3])
-				var pool [][]byte
-				for i := 0; i+13 <= len(args[1]); i += 13 {
-					pool = append(pool, ab(args[1][i:i+13]))
-				}
-				// scratch state: directories, .BRD, shared memory
-				for _, d := range listDirs() {
-					os.RemoveAll(filepath.Join(boardsDir(), d))
-				}
-				for i := 0; i+13 <= len(args[2]); i += 13 {
-					s := c12Cstr(ab(args[2][i : i+13]))
-					if len(s) > 0 {
-						must(os.MkdirAll(filepath.Join(boardsDir(), s[:1], s), 0o755))
-					}
-				}
-				brd := make([]byte, 0, ns*c12Slot)
-				for i := 0; i < ns; i++ {
-					brd = append(brd, mkSlot(args[4+i])...)
-				}
-				must(os.WriteFile(filepath.Join(env.home, ".BRD"), brd, 0o644))
-				env.reload(true)
+				pool, _, ns, nr, via := prepare(args)
 				out := append([]string{"0"}, observe(0, 0, pool)...)
 				for i := 0; i < nr; i++ {
 					code, bid := create(c12ParseReq(args[4+ns+i]), via)
 					out = append(out, "-555")
 					out = append(out, observe(code, bid, pool)...)
+				}
+				return out
+			case 6: // big tables (production build): the input of op 1, every observation printed as its difference to the previous one
+				pool, brd, ns, nr, via := prepare(args)
+				d := newC12Delta(brd, ns, len(pool))
+				out := append([]string{"0"}, d.observe(0, 0, pool, filepath.Join(env.home, ".BRD"), listDirs())...)
+				for i := 0; i < nr; i++ {
+					code, bid := create(c12ParseReq(args[4+ns+i]), via)
+					out = append(out, "-555")
+					out = append(out, d.observe(code, bid, pool, filepath.Join(env.home, ".BRD"), listDirs())...)
 				}
 				return out
 			case 3:
